@@ -66,10 +66,10 @@ PrmRows(c) == IF c.prm = <<>> THEN {<<>>} ELSE {c.prm[i] : i \in DOMAIN c.prm}  
 DevOfCall(t, c) ==
     IF c.kind = "s_lhs" /\ c.exc = "IndexError" /\ HasNode(E(t), "trans") THEN "translate_bbox_per_row"
     \* the same per-row box inside a product: ProductDomain.bounding_box concatenates it with the flat box of the other factor
-    ELSE IF c.kind = "s_lhs" /\ c.exc = "RuntimeError" /\ E(t).k = "prod" /\ HasNode(E(t), "trans")
+    ELSE IF c.kind = "s_lhs" /\ c.exc = "RuntimeError" /\ HasNode(E(t), "prod") /\ HasNode(E(t), "trans")
             /\ "msg" \in DOMAIN c /\ c.msg = "Tensors must have same number of dimensions: got 1 and 2" THEN "translate_bbox_per_row"
     \* ... and inside a union / intersection, whose bounding_box compares the entries of the operands' boxes as scalars
-    ELSE IF c.kind = "s_lhs" /\ c.exc = "RuntimeError" /\ E(t).k \in {"union", "and", "cut"} /\ HasNode(E(t), "trans")
+    ELSE IF c.kind = "s_lhs" /\ c.exc = "RuntimeError" /\ (HasNode(E(t), "union") \/ HasNode(E(t), "and") \/ HasNode(E(t), "cut")) /\ HasNode(E(t), "trans")
             /\ "msg" \in DOMAIN c /\ c.msg = "Boolean value of Tensor with more than one value is ambiguous" THEN "translate_bbox_per_row"
     ELSE IF SharedPiece(t, c) THEN "bool_bd_shared_piece"
     ELSE IF t.scenario.boundary /\ c.exc = "hang" /\ \E r \in PrmRows(c) : EmptyOperand(E(t), r) THEN "bool_bd_empty_operand"
